@@ -8,7 +8,7 @@ import subprocess
 import time
 
 VERIF = os.path.dirname(os.path.dirname(os.path.abspath(__file__)))
-REPO = "/repo"
+REPO = os.environ.get("CFVERIF_REPO", "/repo")   # development aid: mutation runs use a private copy
 HARNESS = os.path.join(VERIF, "harness")
 LEAN = os.path.join(VERIF, "lean")
 ALLOWED_AXIOMS = {"propext", "Classical.choice", "Quot.sound"}
